@@ -134,7 +134,14 @@ def df_case(rec, seedt):
                        "c": rng.integers(-50, 50, size=N), "s": ["t"] * N})
     cols = [None, ["a"], ["c", "b"], ["a", "s"]][int(rng.integers(0, 4))]
     inplace = bool(rng.random() < 0.5)
-    desc = {"kind": "df", "seed": list(seedt), "N": N, "p": p, "columns": cols, "inplace": inplace}
+    if rng.random() < 0.25:
+        # the frame already carries the output of an earlier detrend (suffix name clash)
+        df["a_detrended"] = np.asarray(dsp.polynomial_detrend(df["a"].values, order=3)) \
+            + 0.01 * np.arange(N) ** 2
+        if cols is not None and "a" in cols and rng.random() < 0.7:
+            cols = cols + ["a_detrended"] if rng.random() < 0.5 else ["a_detrended"] + cols
+    desc = {"kind": "df", "seed": list(seedt), "N": N, "p": p, "columns": cols, "inplace": inplace,
+            "has_suffix_column": "a_detrended" in df.columns}
     rec.case(desc, nontrivial=True)
     # index flavours a caller's frame realistically has (slice that keeps its labels, float time
     # index, rows re-ordered without reset_index): the wrapper works on row POSITION
@@ -160,6 +167,10 @@ def df_case(rec, seedt):
                                          f"input ({N} rows, index kind {ikind})")
         return
     sel = list(df.columns) if cols is None else cols
+    # a pre-existing column that is itself the output name of a selected column is legitimately
+    # replaced by that output (suffix name clash)
+    clash = set() if inplace else {f"{c}_detrended" for c in sel
+                                   if c in df.columns and df[c].dtype.kind in "biufc"}
     for c in df.columns:
         numeric = df[c].dtype.kind in "biufc"
         target = c if inplace else f"{c}_detrended"
@@ -176,12 +187,12 @@ def df_case(rec, seedt):
                 rec.violation("df-detrend-not-orthogonal", f"column {c} (dtype {df0[c].dtype}): "
                                                            f"detrended column is not orthogonal to "
                                                            f"degree<={p} polynomials")
-            if not inplace and not np.array_equal(out[c].values, df0[c].values):
+            if not inplace and c not in clash and not np.array_equal(out[c].values, df0[c].values):
                 rec.violation("df-original-column-changed", f"column {c} changed (inplace=False)")
         else:
-            if not np.array_equal(out[c].values, df0[c].values):
+            if c not in clash and not np.array_equal(out[c].values, df0[c].values):
                 rec.violation("df-unselected-column-touched", f"column {c} changed")
-            if not inplace and f"{c}_detrended" in out.columns:
+            if not inplace and f"{c}_detrended" in out.columns and f"{c}_detrended" not in df0.columns:
                 rec.violation("df-unselected-column-touched", f"{c}_detrended created")
 
 
